@@ -1,6 +1,6 @@
-(* Proofs about model/CacheLinbasex.v: the key collisions are the only way a
-   hazard-free history can return something else than a fresh process, and the
-   collisions / the poisoning after a raising load are real. *)
+(* Proofs about model/CacheLinbasex.v (fixed code): history independence and
+   fault safety; the one remaining exclusion (image size not part of the memory
+   test) is shown to be real. *)
 From Coq Require Import List Arith Bool Lia.
 From PA Require Import base.Npy model.CacheCommon model.CacheLinbasex.
 Import ListNotations.
@@ -59,7 +59,7 @@ Definition honest (d : disk fkey lcont) : Prop :=
     match c with
     | FGood x => x = own x /\ k = (l_cols x, own_key x)
     | FBad _ => True
-    | FShape => False
+    | FShape => True
     end.
 
 (* the cached basis is exactly the one of its own parameters and sits under
@@ -77,7 +77,7 @@ Lemma honest_filter : forall d f, honest d -> honest (filter f d).
 Proof. unfold honest. intros d f H di k c Hin. apply filter_In in Hin. destruct Hin. eapply H; eauto. Qed.
 
 Lemma honest_put : forall d di k c, honest d ->
-  match c with FGood x => x = own x /\ k = (l_cols x, own_key x) | FBad _ => True | FShape => False end ->
+  match c with FGood x => x = own x /\ k = (l_cols x, own_key x) | FBad _ => True | FShape => True end ->
   honest (put_file fkey_eqb di k c d).
 Proof.
   unfold honest, put_file, remove_file. intros d di k c H Hc di' k' c' [Hin|Hin].
@@ -116,12 +116,13 @@ Qed.
 Lemma own_ideal : forall cols o a s c, own (ideal cols o a s c) = ideal cols o a s c.
 Proof. reflexivity. Qed.
 
-(* an exact basis that passes the parameter comparison IS the wanted one *)
-Lemma exact_eqv_eq : forall c cols o a st cl,
-  c = own c -> l_eqv c (ideal cols o a st cl) = true -> c = ideal cols o a st cl.
+(* a basis that is exactly the one of its own parameters, sits under the key
+   k and was made for this image size IS the wanted one (the key is injective) *)
+Lemma own_key_eq : forall c cols o a st cl,
+  c = own c -> own_key c = key_of o a st cl -> l_cols c = cols -> c = ideal cols o a st cl.
 Proof.
-  intros c cols o a st cl Hc H. destruct (l_eqv_parts _ _ H) as (H1 & H2 & H3 & H4 & H5 & _ & _).
-  cbn in H1, H2, H3, H4, H5. rewrite Hc. unfold own. rewrite H1, H2, H3, H4, H5. reflexivity.
+  intros c cols o a st cl Hc Hk Hcols. unfold own_key, key_of in Hk. inversion Hk as [[H1 H2 H3 H4]].
+  rewrite Hc. unfold own. rewrite H1, H2, H3, H4, Hcols. reflexivity.
 Qed.
 
 (* `use` does not depend on the state *)
@@ -160,58 +161,74 @@ Qed.
 (* ---- one step ------------------------------------------------------------------------ *)
 Lemma step_good : forall s o s' r,
   Inv s -> hazard s o = false -> step s o = (s', r) ->
-  (is_call o = false -> Inv s') /\
+  Inv s' /\
   (is_call o = true ->
-     (Inv s' /\ out_eqv r (fresh o) = true) \/
+     out_eqv r (fresh o) = true \/
      exists e di k pe, r = Raise e /\ In (di, k, FBad pe) (dk s)).
 Proof.
   intros s o s' r HI Hz Hs. pose proof HI as [HI0 Hh].
   destruct o as [cols o a stp cl bd| |bd|bd|d k c|d k].
-  - split; [discriminate|]. intros _.
-    cbn [step hazard] in *. apply orb_false_iff in Hz. destruct Hz as [Hbad Hcol].
+  - cbn [step hazard] in *. apply orb_false_iff in Hz. destruct Hz as [Hbad Hsize].
     assert (Hbd : match bd with BPath d => dir_writable d = true | _ => True end).
     { destruct bd; auto. unfold uses_bad_dir in Hbad. simpl in Hbad. apply negb_false_iff in Hbad. auto. }
     rewrite fresh_expected by exact Hbd.
     set (want := ideal cols o a stp cl) in *. set (k := key_of o a stp cl) in *.
-    unfold step_call in Hs. fold k in Hs. unfold collision in Hcol. fold k want in Hcol.
+    unfold step_call in Hs. fold k want in Hs. unfold size_confusion in Hsize. fold k in Hsize.
     destruct (mem_hit s cols k) as [c|] eqn:Eh.
-    + (* memory hit: not a collision, so it is the wanted basis *)
-      apply negb_false_iff in Hcol.
+    + (* memory hit: same key, same image size: it is the wanted basis *)
+      apply negb_false_iff in Hsize. apply Nat.eqb_eq in Hsize.
       assert (Hc : c = want).
       { unfold mem_hit in Eh. destruct (basis s) as [c0|]; [|discriminate].
-        destruct (kprm s); [|discriminate].
-        destruct ((l_rows c0 =? 2 * cols) && (l_ncols c0 =? cols + 1) && key_eqb k0 k); [|discriminate].
-        inversion Eh; subst c0. destruct HI0 as [Hown _]. apply exact_eqv_eq; auto. }
-      subst c. rewrite use_split in Hs. inversion Hs; subst. left. split; auto.
+        destruct (kprm s) as [k0|]; [|discriminate].
+        destruct ((l_rows c0 =? 2 * cols) && (l_ncols c0 =? cols + 1) && key_eqb k0 k) eqn:Et; [|discriminate].
+        inversion Eh; subst c0. destruct HI0 as [Hown Hk0]. inversion Hk0; subst k0.
+        apply andb_true_iff in Et. destruct Et as [_ Et]. apply key_eqb_eq in Et.
+        apply own_key_eq; auto. }
+      rewrite Hc in Hs. rewrite use_split in Hs. inversion Hs; subst s' r. split; auto. intros _. left.
       apply out_eqv_use_refl. reflexivity.
-    + destruct (resolve (gdir s) bd) as [g dir] eqn:Er. cbn [snd] in Hcol.
+    + destruct (resolve (gdir s) bd) as [g dir] eqn:Er.
       unfold uses_bad_dir in Hbad. rewrite Er in Hbad. cbn [snd] in Hbad.
       assert (Hgen : forall d', honest d' -> Inv (mk (Some want) (Some k) g d')).
       { intros d' Hd'. unfold Inv, mk. cbn [basis kprm dk]. split; auto. }
-      destruct dir as [di|].
-      * apply negb_false_iff in Hbad.
-        destruct (find_file fkey_eqb di (cols, k) (dk s)) as [[c|pe|]|] eqn:Ef.
-        -- apply negb_false_iff in Hcol. apply find_file_In in Ef. pose proof (Hh _ _ _ Ef) as [Hown Hk].
-           assert (Hc : c = want) by (apply exact_eqv_eq; auto). subst c.
-           rewrite use_split in Hs. inversion Hs; subst. left. split; [apply Hgen; auto|].
-           apply out_eqv_use_refl. reflexivity.
-        -- inversion Hs; subst. right. apply find_file_In in Ef.
-           exists (load_exc pe), di, (cols, k), pe. auto.
-        -- apply find_file_In in Ef. pose proof (Hh _ _ _ Ef) as [].
-        -- rewrite Hbad in Hs. rewrite use_split in Hs. inversion Hs; subst. left. split.
-           ++ apply Hgen. apply honest_put; auto.
-           ++ apply out_eqv_use_refl. reflexivity.
-      * rewrite use_split in Hs. inversion Hs; subst. left. split; [apply Hgen; auto|].
-        apply out_eqv_use_refl. reflexivity.
-  - inversion Hs; subst. split; [|discriminate]. intros _. unfold Inv, mk. cbn. auto.
+      assert (Hgenerate : forall s2 r2,
+                match dir with
+                | Some d =>
+                    if dir_writable d
+                    then use (mk (Some want) (Some k) g (put_file fkey_eqb d (cols, k) (FGood want) (dk s)))
+                             want cols (length o) (length a)
+                    else (mk (Some want) (Some k) g (dk s), Raise EOther)
+                | None => use (mk (Some want) (Some k) g (dk s)) want cols (length o) (length a)
+                end = (s2, r2) ->
+                Inv s2 /\ out_eqv r2 (use_res want cols (length o) (length a)) = true).
+      { intros s2 r2 E. destruct dir as [di|].
+        - apply negb_false_iff in Hbad. rewrite Hbad in E. rewrite use_split in E. inversion E; subst. split.
+          + apply Hgen. apply honest_put; auto.
+          + apply out_eqv_use_refl. reflexivity.
+        - rewrite use_split in E. inversion E; subst. split; [apply Hgen; auto|].
+          apply out_eqv_use_refl. reflexivity. }
+      destruct dir as [di|]; [|destruct (Hgenerate _ _ Hs); split; auto].
+      destruct (find_file fkey_eqb di (cols, k) (dk s)) as [[c|pe|]|] eqn:Ef;
+        try (destruct (Hgenerate _ _ Hs); split; auto; fail).
+      * apply find_file_In in Ef. pose proof (Hh _ _ _ Ef) as [Hown Hk].
+        assert (Hc : c = want).
+        { injection Hk as Hcols Ho Ha Hst Hcl. apply own_key_eq; auto.
+          unfold own_key, key_of. rewrite <- Ho, <- Ha, <- Hst, <- Hcl. reflexivity. }
+        rewrite Hc in Hs.
+        replace ((l_rows want =? length a * cols) && (l_ncols want =? length o * np_count cols stp cl))
+          with true in Hs by (unfold want; cbn; rewrite !Nat.eqb_refl; reflexivity).
+        rewrite use_split in Hs. inversion Hs; subst. split; [apply Hgen; auto|].
+        intros _. left. apply out_eqv_use_refl. reflexivity.
+      * inversion Hs; subst. split; [exact HI|]. intros _. right. apply find_file_In in Ef.
+        exists (load_exc pe), di, (cols, k), pe. auto.
+  - inversion Hs; subst. split; [|discriminate]. unfold Inv, mk. cbn. auto.
   - cbn [step] in Hs. destruct (resolve (gdir s) bd) as [g dir].
-    destruct dir as [di|]; inversion Hs; subst; (split; [|discriminate]); intros _;
+    destruct dir as [di|]; inversion Hs; subst; (split; [|discriminate]);
       unfold Inv, mk; cbn [basis kprm dk]; split; auto. apply honest_filter; auto.
-  - inversion Hs; subst. split; [|discriminate]. intros _. exact HI.
-  - inversion Hs; subst. split; [|discriminate]. intros _.
+  - inversion Hs; subst. split; [|discriminate]. exact HI.
+  - inversion Hs; subst. split; [|discriminate].
     unfold Inv, mk. cbn [basis kprm dk]. split; auto.
     apply honest_put; auto. cbn [hazard] in Hz.
-    destruct c as [x|e|]; auto; [|discriminate].
+    destruct c as [x|e|]; auto.
     apply negb_false_iff in Hz. apply andb_true_iff in Hz. destruct Hz as [Hk Hx].
     apply fkey_eqb_eq in Hk. split; auto.
     unfold lcont_exact in Hx. apply andb_true_iff in Hx. destruct Hx as [Hx H3].
@@ -219,28 +236,30 @@ Proof.
     apply Nat.eqb_eq in H2. apply Nat.eqb_eq in H3.
     destruct (l_eqv_parts _ _ H1) as (_ & _ & _ & _ & _ & Hj & _).
     destruct x as [xc xo xa xs xl xr xn xj]. cbn in *. subst. unfold own, ideal. cbn. reflexivity.
-  - inversion Hs; subst. split; [|discriminate]. intros _.
+  - inversion Hs; subst. split; [|discriminate].
     unfold Inv, mk. cbn [basis kprm dk]. split; auto. apply honest_filter; auto.
 Qed.
 
 (* ---- no damaged file ------------------------------------------------------------------- *)
-Definition clean (s : st) : Prop := forall di k c, In (di, k, c) (dk s) -> exists x, c = FGood x.
+Definition clean (s : st) : Prop := forall di k c, In (di, k, c) (dk s) -> forall pe, c <> FBad pe.
 
 Lemma step_dk : forall s o s' r, step s o = (s', r) ->
   forall di k c, In (di, k, c) (dk s') ->
     In (di, k, c) (dk s) \/ (exists x, c = FGood x) \/ (exists d0 k0, o = Seed d0 k0 c).
 Proof.
   intros s o s' r Hs di k c Hin. destruct o as [cols o a stp cl bd| |bd|bd|d k0 c0|d k0].
-  - cbn [step] in Hs. unfold step_call in Hs. revert Hs. rewrite ?use_split.
-    destruct (mem_hit s cols (key_of o a stp cl)); [rewrite use_split; intros E; inversion E; subst; auto|].
-    destruct (resolve (gdir s) bd) as [g [d1|]].
-    + destruct (find_file fkey_eqb d1 (cols, key_of o a stp cl) (dk s)) as [[x|pe|]|];
-        try (destruct (dir_writable d1)); rewrite ?use_split; intros E; inversion E; subst; cbn [dk mk] in Hin;
-        first [ left; exact Hin
-              | destruct Hin as [Hi|Hi];
-                [inversion Hi; subst; right; left; eauto
-                |apply filter_In in Hi; destruct Hi; left; assumption] ].
-    + rewrite use_split; intros E; inversion E; subst; auto.
+  - cbn [step] in Hs. unfold step_call in Hs. revert Hs.
+    repeat match goal with
+           | |- context [use ?a ?b ?c ?d ?e] => rewrite (use_split a b c d e)
+           end.
+    repeat match goal with
+           | |- context [if ?c then _ else _] => destruct c
+           | |- context [match ?x with _ => _ end] => destruct x
+           end; rewrite ?use_split; intros E; inversion E; subst; cbn [dk mk] in Hin;
+      first [ left; exact Hin
+            | destruct Hin as [Hi|Hi];
+              [inversion Hi; subst; right; left; eauto
+              |apply filter_In in Hi; destruct Hi; left; assumption] ].
   - inversion Hs; subst. auto.
   - cbn [step] in Hs. destruct (resolve (gdir s) bd) as [g dir].
     destruct dir; inversion Hs; subst; cbn [dk mk] in Hin; auto.
@@ -255,9 +274,9 @@ Qed.
 Lemma step_clean : forall s o s' r, clean s -> damage o = false -> hazard s o = false ->
   step s o = (s', r) -> clean s'.
 Proof.
-  intros s o s' r Hc Hd Hz Hs di k c Hin.
-  destruct (step_dk _ _ _ _ Hs _ _ _ Hin) as [H|[H|(d0 & k0 & ->)]]; eauto.
-  cbn [damage hazard] in *. destruct c; eauto; discriminate.
+  intros s o s' r Hc Hd Hz Hs di k c Hin pe.
+  destruct (step_dk _ _ _ _ Hs _ _ _ Hin) as [H|[[x ->]|(d0 & k0 & ->)]]; [eauto|discriminate|].
+  cbn [damage] in Hd. destruct c; try discriminate.
 Qed.
 
 (* ---- theorems ------------------------------------------------------------------------------ *)
@@ -269,16 +288,16 @@ Proof.
   apply andb_true_iff in Hz. destruct Hz as [Hz1 Hz2]. apply negb_true_iff in Hz1.
   apply andb_true_iff in Hd. destruct Hd as [Hd1 Hd2]. apply negb_true_iff in Hd1.
   destruct (step s o) as [s' r] eqn:Es. cbn [fst] in Hz2.
-  destruct (step_good _ _ _ _ HI Hz1 Es) as [Hn Hr].
+  destruct (step_good _ _ _ _ HI Hz1 Es) as [HI' Hr].
   pose proof (step_clean _ _ _ _ Hc Hd1 Hz1 Es) as Hc'.
-  destruct (is_call o) eqn:Eo.
-  - destruct (Hr eq_refl) as [[HI' Hok]|(e & di & k & pe & _ & Hin)].
-    + rewrite Hok. cbn [andb]. apply IH; auto.
-    + destruct (Hc _ _ _ Hin) as [b Hb]. discriminate.
-  - cbn [andb]. apply IH; auto.
+  apply andb_true_iff. split; [|apply IH; auto].
+  destruct (is_call o) eqn:Eo; [|reflexivity].
+  destruct (Hr eq_refl) as [Hok|(e & di & k & pe & _ & Hin)]; [exact Hok|].
+  exfalso. exact (Hc _ _ _ Hin pe eq_refl).
 Qed.
 
-(* C07 for linbasex, the key collisions excluded (they are hazards) *)
+(* C07 for linbasex.  _partial only because of the size_confusion exclusion in
+   `hazard` (the memory test does not compare the image size) *)
 Theorem history_independent_partial : forall ops,
   no_hazard init ops = true -> no_damage ops = true -> all_agree init ops = true.
 Proof.
@@ -287,67 +306,59 @@ Proof.
   - intros di k c [].
 Qed.
 
-Lemma safe_until_raise_from : forall ops s,
-  Inv s -> no_hazard s ops = true -> safe_until_raise s ops = true.
+Lemma fault_safe_from : forall ops s,
+  Inv s -> no_hazard s ops = true -> all_safe s ops = true.
 Proof.
   induction ops as [|o ops IH]; intros s HI Hz; [reflexivity|].
-  cbn [no_hazard safe_until_raise] in *.
+  cbn [no_hazard all_safe] in *.
   apply andb_true_iff in Hz. destruct Hz as [Hz1 Hz2]. apply negb_true_iff in Hz1.
   destruct (step s o) as [s' r] eqn:Es. cbn [fst] in Hz2.
-  destruct (step_good _ _ _ _ HI Hz1 Es) as [Hn Hr].
-  destruct (is_call o) eqn:Eo.
-  - destruct r as [d|e]; [|reflexivity].
-    destruct (Hr eq_refl) as [[HI' Hok]|(e & di & k & pe & Hf & _)]; [|discriminate].
-    rewrite Hok. cbn [andb]. apply IH; auto.
-  - apply IH; auto.
+  destruct (step_good _ _ _ _ HI Hz1 Es) as [HI' Hr].
+  apply andb_true_iff. split; [|apply IH; auto].
+  destruct (is_call o) eqn:Eo; [|reflexivity].
+  destruct (Hr eq_refl) as [Hok|(e & di & k & pe & -> & Hin)].
+  - rewrite Hok. reflexivity.
+  - apply orb_true_iff. right. destruct e; reflexivity.
 Qed.
 
-Theorem fault_safe_until_raise : forall ops,
-  no_hazard init ops = true -> safe_until_raise init ops = true.
-Proof. intros. apply safe_until_raise_from; auto. apply Inv_init. Qed.
+Theorem fault_safe : forall ops, no_hazard init ops = true -> all_safe init ops = true.
+Proof. intros. apply fault_safe_from; auto. apply Inv_init. Qed.
 
-(* ---- refutations (recorded findings) -------------------------------------------------------- *)
-(* F4a: two angle lists closer than 1 % of pi share the key: 50.25 % and 50.5 % *)
-Definition ang_hist : list op := [Call 11 [0; 2] [0; 201] 1 0 BNone].
-Definition ang_call : op := Call 11 [0; 2] [0; 202] 1 0 BNone.
+(* ---- formerly failing histories (fixed) and the remaining one ------------------------------- *)
+(* d879963: angle lists closer than 1 % of pi, and [1, 2] / [12], no longer share a key *)
+Example angle_keys_distinct :
+  out_eqv (last_result [Call 11 [0; 2] [0; 201] 1 0 BNone] (Call 11 [0; 2] [0; 202] 1 0 BNone))
+          (fresh (Call 11 [0; 2] [0; 202] 1 0 BNone)) = true.
+Proof. vm_compute. reflexivity. Qed.
 
-Theorem angle_key_collision_refuted :
-  key_of [0; 2] [0; 201] 1 0 = key_of [0; 2] [0; 202] 1 0 /\
-  res_code (last_result ang_hist ang_call) = 0 /\
-  den_out (last_result ang_hist ang_call) <> den_out (fresh ang_call).
-Proof. split; [reflexivity|]. split; [vm_compute; reflexivity|]. vm_compute. discriminate. Qed.
+Example order_keys_distinct :
+  out_eqv (last_result [Call 11 [1; 2] [0; 202] 1 0 (BPath 1); Cleanup] (Call 11 [12] [0; 202] 1 0 (BPath 1)))
+          (fresh (Call 11 [12] [0; 202] 1 0 (BPath 1))) = true.
+Proof. vm_compute. reflexivity. Qed.
 
-(* F4b: the order lists [1, 2] and [12] give the same file name *)
-Definition ord_hist : list op := [Call 11 [1; 2] [0; 202] 1 0 (BPath 1); Cleanup].
-Definition ord_call : op := Call 11 [12] [0; 202] 1 0 (BPath 1).
-
-Theorem order_key_collision_refuted :
-  key_of [1; 2] [0; 202] 1 0 = key_of [12] [0; 202] 1 0 /\
-  out_eqv (last_result ord_hist ord_call) (fresh ord_call) = false.
-Proof. split; [reflexivity|]. vm_compute. reflexivity. Qed.
-
-(* the keys are assigned before the unguarded np.load: after it raised on a
-   damaged file (then removed), the old basis answers for the new parameters *)
+(* 0e05e8d: a raising load leaves the cache untouched *)
 Definition poison_hist : list op :=
   [Call 11 [0; 2] [0; 202] 1 0 BNone;
    Seed 1 (11, key_of [0; 2] [0; 102] 1 0) (FBad PValue);
    Call 11 [0; 2] [0; 102] 1 0 (BPath 1);
    Remove 1 (11, key_of [0; 2] [0; 102] 1 0)].
 Definition poison_call : op := Call 11 [0; 2] [0; 102] 1 0 (BPath 1).
+Example failed_load_harmless :
+  out_eqv (last_result poison_hist poison_call) (fresh poison_call) = true.
+Proof. vm_compute. reflexivity. Qed.
 
-Theorem failed_load_poisons_refuted :
-  no_hazard init poison_hist = true /\
-  res_code (last_result poison_hist poison_call) = 0 /\
-  den_out (last_result poison_hist poison_call) <> den_out (fresh poison_call).
-Proof.
-  split; [vm_compute; reflexivity|]. split; [vm_compute; reflexivity|]. vm_compute. discriminate.
-Qed.
+(* 7ce4ac5: a valid file of another shape is ignored and replaced *)
+Example wrong_shape_regenerated :
+  out_eqv (last_result [Seed 1 (11, key_of [0; 2] [0; 202] 1 0) FShape] (Call 11 [0; 2] [0; 202] 1 0 (BPath 1)))
+          (fresh (Call 11 [0; 2] [0; 202] 1 0 (BPath 1))) = true.
+Proof. vm_compute. reflexivity. Qed.
 
-(* a valid file of another shape is used without any check *)
-Definition ws_hist : list op := [Seed 1 (11, key_of [0; 2] [0; 202] 1 0) FShape].
-Definition ws_call : op := Call 11 [0; 2] [0; 202] 1 0 (BPath 1).
-
-Theorem wrong_shape_used_refuted :
-  res_code (last_result ws_hist ws_call) = 0 /\
-  den_out (last_result ws_hist ws_call) <> den_out (fresh ws_call).
-Proof. split; [vm_compute; reflexivity|]. vm_compute. discriminate. Qed.
+(* REMAINING finding: the memory test looks at the shape (2*cols, cols+1) only.
+   6 angles and 5 orders on a 3x3 image give an (18, 10) basis; the same lists
+   on a 9x9 image pass the test and lstsq raises LinAlgError *)
+Definition six : list nat := [10; 60; 110; 160; 210; 260].
+Definition five : list nat := [0; 1; 2; 3; 4].
+Theorem size_test_refuted :
+  res_code (last_result [Call 3 five six 1 0 BNone] (Call 9 five six 1 0 BNone)) = exc_code EOther /\
+  res_code (fresh (Call 9 five six 1 0 BNone)) = 0.
+Proof. split; vm_compute; reflexivity. Qed.
